@@ -110,6 +110,10 @@ def check_batch_threading(prog, rep, rule):
         for fs in fors:
             it = fs.args[0]
             src = iter_source(it)
+            import norm
+            rx = norm.index_range_of(norm.strip_adapters(norm.Normalizer()(src)))
+            if rx is not None:
+                src = iter_source(rx)       # `for i in 0..trees.len()`: the loop visits the indices of `trees` in order (trees[i] is its element)
             bad = [y[1].rsplit("::", 1)[-1] for y in [it] + list(subterms(it)) if y[0] == "call" and isinstance(y[1], str) and y[1].rsplit("::", 1)[-1] in BAD_ADAPTERS]
             elems = [y for y in [node_arg] + list(subterms(node_arg)) if y[0] == "elem" and iter_source(y[1]) == src]
             import norm
